@@ -90,6 +90,10 @@ where
     fn progress_and_get_begin_idx(&self, number_to_fetch: usize) -> Option<usize> {
         let begin_idx = self.counter().fetch_and_add(number_to_fetch);
 
+        if self.completed.load(atomic::Ordering::SeqCst) {
+            return None;
+        }
+
         loop {
             let yielded_count = self.yielded_counter.current();
             match begin_idx.cmp(&yielded_count) {
@@ -109,6 +113,10 @@ where
     }
 
     fn get(&self, item_idx: usize) -> Option<T> {
+        if self.completed.load(atomic::Ordering::SeqCst) {
+            return None;
+        }
+
         loop {
             let yielded_count = self.yielded_counter.current();
             match item_idx.cmp(&yielded_count) {
@@ -166,7 +174,6 @@ where
     }
 
     fn early_exit(&self) {
-        self.counter().store(usize::MAX);
         self.completed.store(true, atomic::Ordering::SeqCst);
     }
 }
